@@ -64,8 +64,8 @@ Proof.
   assert (Htr' : tr H (cur s) q = tr H (m_verified m) q) by exact Htr.
   pose proof (mo_order _ _ _ _ _ _ _ Hok) as (Ho1 & Ho2 & Ho3).
   assert (Hfin : DInv H D (store s q m') /\ dext s (store s q m')).
-  { apply (DInv_store prog NF H D s q m' HI); [reflexivity | | |].
-    - destruct Hok as [a b c d e f g h i j].
+  { apply (DInv_store prog NF H D s q m' HI); [reflexivity | | | |].
+    - destruct Hok as [a b c d e f g h i k j].
       constructor; cbn [m' reverify m_val m_verified m_changed m_dur m_untracked m_edges];
         rewrite ?cur_store, ?Htr'; auto.
       + pose proof (inv_cur _ _ _ _ _ HI). lia.
@@ -74,6 +74,12 @@ Proof.
         rewrite (HDin i0 Hi0). exact A.
       + intros d0 Hd0. destruct (d d0 Hd0) as [A | A]; [left; exact A | right].
         apply (never_now H D s (m_verified m) d0 HI Ho1 Ho3 A).
+      + destruct k as [A | (x & Hx & Hs)]; [left; exact A | right].
+        exists x. split; [exact Hx|]. destruct x as [i0 | d0 | c0 |]; cbn in *; try exact Hs.
+        destruct Hs as (md & Hmd & Hle).
+        assert (Hne : q <> d0).
+        { intros <-. pose proof (tr_calls prog rank Hrank NF H _ _ _ Hx). lia. }
+        exists md. split; [rewrite upd_other by exact Hne; exact Hmd | exact Hle].
       + intros d0 Hd0. destruct (key_eqb_spec q d0) as [<- | Hne].
         * exists m'. split; [unfold store; cbn; apply upd_same|].
           intros _. split; [reflexivity | cbn; lia].
@@ -87,7 +93,8 @@ Proof.
       destruct Hobs as [A B]; [exact Hpre|].
       split; [rewrite A; symmetry; exact HE | exact B].
     - intros m0 Hm0 Hv0. rewrite Hm in Hm0. injection Hm0 as <-.
-      split; [|cbn; lia]. intros _. unfold m'. rewrite <- Hv0. symmetry. apply reverify_same. }
+      split; [|cbn; lia]. intros _. unfold m'. rewrite <- Hv0. symmetry. apply reverify_same.
+    - intros m0 Hm0. rewrite Hm in Hm0. injection Hm0 as <-. cbn. lia. }
   destruct Hfin as [A B]. split; [exact A|]. split; [exact B | exact HE].
 Qed.
 
@@ -153,6 +160,9 @@ Record covers (s : db) (pre : list rd) (fr : frame) : Prop := {
             fr_untracked fr = true /\ fr_changed fr = cur s /\ fr_dur fr = 0;
   cv_edges_q : forall d, In (EQ d) (fr_edges fr) -> In (RQ d) pre;
   cv_le : fr_changed fr <= cur s;
+  cv_ge1 : 1 <= fr_changed fr;
+  (* the frame's stamp is the stamp of something that was read (or the start revision) *)
+  cv_stamp : fr_changed fr <= 1 \/ exists x, In x pre /\ sle s (fr_changed fr) x;
   cv_dur3 : fr_dur fr <= 3;
   cv_untr : fr_untracked fr = true -> fr_dur fr = 0;
   (* the frame's durability is exactly the minimum over what was read *)
@@ -171,6 +181,8 @@ Proof.
   - intros x [].
   - intros d [].
   - exact Hc.
+  - cbn. unfold REV_START. lia.
+  - left. cbn. unfold REV_START. lia.
   - cbn. unfold D_NEVER. lia.
   - discriminate.
   - intros k Hk _ _ _. exact Hk.
@@ -205,6 +217,54 @@ Proof.
   - intros x Hx Hu. rewrite Htr in Hx. apply (durge_untr _ _ _ _ _ _ _ _ Hdq Hx Hu).
 Qed.
 
+(* A re-execution never yields a stamp below the old changed_at:
+   either every read has the answer it had when the old memo was verified -- then the new run
+   reads the same things, whose stamps bound the old changed_at -- or the first read with a
+   different answer is read again, and its stamp is later than the old verified_at (an
+   untracked read that is performed again stamps the frame with the current revision). *)
+Lemma frame_changed_lb H D s q fr o :
+  DInv H D s -> covers s (tr H (cur s) q) fr -> d_memo s q = Some o ->
+  m_changed o <= fr_changed fr.
+Proof.
+  intros HI Hcv Ho.
+  pose proof (inv_memo _ _ _ _ _ HI q o Ho) as Hok.
+  pose proof (mo_order _ _ _ _ _ _ _ Hok) as (Ho1 & Ho2 & Ho3).
+  assert (Hsle : forall x, In x (tr H (cur s) q) -> sle s (m_changed o) x ->
+            m_changed o <= fr_changed fr).
+  { intros x Hx Hs. destruct x as [i | d | c |]; cbn in Hs.
+    - destruct (cv_in _ _ _ Hcv i Hx) as (_ & A & _). lia.
+    - destruct Hs as (md & Hmd & Hle).
+      destruct (cv_q _ _ _ Hcv d Hx) as (md0 & Hmd0 & _ & _ & A & _).
+      rewrite Hmd in Hmd0. injection Hmd0 as <-. lia.
+    - destruct (cv_cell _ _ _ Hcv (RCell c) Hx) as (_ & A & _); [right; eauto | lia].
+    - destruct (cv_cell _ _ _ Hcv RTouch Hx) as (_ & A & _); [left; reflexivity | lia]. }
+  destruct (first_changed_is_read_again (prog q) (envat H (m_verified o)) (envat H (cur s)))
+    as [Hag | (pre & x & post & Ht & _ & Hnea & post' & Ht')].
+  - destruct (trace_determined _ _ _ Hag) as [Htr _].
+    assert (Htr' : tr H (cur s) q = tr H (m_verified o) q) by exact Htr.
+    destruct (mo_stamp _ _ _ _ _ _ _ Hok) as [A | (x & Hx & Hs)].
+    + pose proof (cv_ge1 _ _ _ Hcv). lia.
+    + apply (Hsle x); [rewrite Htr'; exact Hx | exact Hs].
+  - assert (Hx : In x (tr H (m_verified o) q)).
+    { unfold tr, Inv.tr. rewrite Ht. apply in_or_app; right; left; reflexivity. }
+    assert (Hx' : In x (tr H (cur s) q)).
+    { unfold tr, Inv.tr. rewrite Ht'. apply in_or_app; right; left; reflexivity. }
+    destruct x as [i | d | c |]; cbn in Hnea.
+    + destruct (cv_in _ _ _ Hcv i Hx') as (_ & A & _).
+      destruct (N.le_gt_cases (f_changed (d_in s i)) (m_verified o)) as [Hle | Hgt]; [|lia].
+      exfalso. apply Hnea.
+      rewrite (inv_in _ _ _ _ _ HI i (m_verified o) Hle Ho3).
+      symmetry. apply (inv_in _ _ _ _ _ HI i (cur s)); [apply (inv_in_le _ _ _ _ _ HI) | lia].
+    + destruct (cv_q _ _ _ Hcv d Hx') as (md & Hmd & Hvd & _ & A & _).
+      destruct (N.le_gt_cases (m_changed md) (m_verified o)) as [Hle | Hgt]; [|lia].
+      exfalso. apply Hnea.
+      destruct (mo_obs _ _ _ _ _ _ _ Hok d (clos_one _ _ _ _ _ _ Hx)) as (md0 & Hmd0 & Hobs).
+      rewrite Hmd in Hmd0. injection Hmd0 as <-.
+      destruct Hobs as [B _]; [left; exact Hle|]. rewrite B, Hvd. reflexivity.
+    + destruct (cv_cell _ _ _ Hcv (RCell c) Hx') as (_ & A & _); [right; eauto | lia].
+    + exfalso. apply Hnea. reflexivity.
+Qed.
+
 (* A freshly computed memo may be stored: it is ok, and every observer is served. *)
 Lemma fresh_store_ok H D s q fr v ch (old : option memo) :
   DInv H D s ->
@@ -216,13 +276,13 @@ Lemma fresh_store_ok H D s q fr v ch (old : option memo) :
      the durability did not decrease *)
   (ch = fr_changed fr \/
    exists o ov, old = Some o /\ m_val o = Some ov /\ ov = v /\ ch = m_changed o /\
-                m_dur o <= fr_dur fr) ->
+                m_dur o <= fr_dur fr /\ m_changed o <= fr_changed fr) ->
   let m' := fresh_memo v (cur s) ch fr in
   DInv H D (store s q m') /\ dext s (store s q m').
 Proof.
   intros HI Hcv Hv Hold Hnv Hch m'.
   assert (Hch_le : ch <= cur s).
-  { destruct Hch as [-> | (o & ov & Ho & _ & _ & -> & _)].
+  { destruct Hch as [-> | (o & ov & Ho & _ & _ & -> & _ & _)].
     - apply (cv_le _ _ _ Hcv).
     - subst old. pose proof (mo_order _ _ _ _ _ _ _ (inv_memo _ _ _ _ _ HI q o Ho)). lia. }
   assert (Hedges_sub : forall e, In e (m_edges m') -> In e (fr_edges fr)).
@@ -244,7 +304,7 @@ Proof.
     - intros d Hd. destruct (Hcallee d Hd) as (md & _ & _ & _ & Hle & Hdd).
       eapply durge_mono; [exact Hle | exact Hdd].
     - intros x Hx Hu. apply (cv_cell _ _ _ Hcv x Hx Hu). }
-  apply (DInv_store prog NF H D s q m' HI); [reflexivity | | |].
+  apply (DInv_store prog NF H D s q m' HI); [reflexivity | | | |].
   - (* the new memo is ok *)
     constructor; cbn [m' fresh_memo m_val m_verified m_changed m_dur m_untracked]; rewrite ?cur_store.
     + lia.
@@ -269,6 +329,14 @@ Proof.
     + apply (cv_untr _ _ _ Hcv).
     + exact Hdg.
     + apply (cv_dur3 _ _ _ Hcv).
+    + assert (Hle : ch <= fr_changed fr).
+      { destruct Hch as [-> | (o & ov & _ & _ & _ & -> & _ & A)]; [lia | exact A]. }
+      destruct (cv_stamp _ _ _ Hcv) as [A | (x & Hx & Hs)]; [left; lia | right].
+      exists x. split; [exact Hx|]. destruct x as [i0 | d0 | c0 |]; cbn in *; try exact Hs; [lia|].
+      destruct Hs as (md & Hmd & Hle').
+      assert (Hne : q <> d0).
+      { intros <-. pose proof (tr_calls prog rank Hrank NF H _ _ _ Hx). lia. }
+      exists md. split; [rewrite upd_other by exact Hne; exact Hmd | lia].
     + intros d Hd. destruct (key_eqb_spec q d) as [<- | Hne].
       * exists m'. split; [unfold store; cbn; apply upd_same|].
         intros _. split; [reflexivity | cbn; lia].
@@ -310,7 +378,7 @@ Proof.
         split; [apply (durge_q _ _ _ _ _ _ _ _ Hdk Hd) | exact Hlck]. }
     destruct Hpre as [Hle | (k & Hdk & Hlck)]; [|apply (Hstable k Hdk Hlck)].
     cbn [m' fresh_memo m_changed] in Hle.
-    destruct Hch as [-> | (o & ov & Ho & Hov & Heq & -> & Hdo)].
+    destruct Hch as [-> | (o & ov & Ho & Hov & Heq & -> & Hdo & _)].
     + (* not backdated: every read of the new run has a stamp <= v_g *)
       assert (Hsame_ans : forall x, In x (tr H (cur s) q) -> In x (tr H (m_verified mg) q) ->
                 answer (envat H (cur s)) x = answer (envat H (m_verified mg)) x).
@@ -355,6 +423,11 @@ Proof.
     + apply clos_refl.
     + intros d md _ Hmd. left.
       pose proof (mo_order _ _ _ _ _ _ _ (inv_memo _ _ _ _ _ HI d md Hmd)). lia.
+  - (* changed_at never decreases *)
+    intros m0 Hm0. cbn [m' fresh_memo m_changed].
+    destruct Hch as [-> | (o & ov & Ho & _ & _ & -> & _ & _)].
+    + apply (frame_changed_lb H D s q fr m0 HI Hcv Hm0).
+    + subst old. rewrite Hm0 in Ho. injection Ho as <-. lia.
 Qed.
 
 (* ---------------------------------------------------------------- the edge walk succeeded *)
